@@ -358,6 +358,10 @@ class StackNode:
                     pend.append((d, 'timer (period %s)' % e.get('delta_time')))
         except Exception:
             return
+        # only values that are plausibly instants of the (virtual) epoch clock are judged: after a refactor to another time base
+        # (time.monotonic, ticks) the private deadlines mean something else and the monitor stands down
+        ref_now = self.bus.sim.EPOCH + now
+        pend = [(d, w) for (d, w) in pend if isinstance(d, (int, float)) and abs(d - ref_now) < 1e5]
         self.sleep_checks += 1
         if pend:
             d, what = min(pend)
